@@ -14,6 +14,8 @@ import (
 	"path/filepath"
 	"regexp"
 	"runtime"
+	"runtime/debug"
+	"runtime/pprof"
 	"sort"
 	"strconv"
 	"strings"
@@ -646,6 +648,7 @@ func cmdReplay(path string) int {
 }
 
 func main() {
+	debug.SetGCPercent(200)
 	if len(os.Args) < 2 {
 		fmt.Fprintln(os.Stderr, "usage: vcheck run <PROP> [flags] | replay <path> | selftest")
 		os.Exit(2)
@@ -665,10 +668,18 @@ func main() {
 			fmt.Fprintln(os.Stderr, "usage: vcheck run <PROP>")
 			os.Exit(2)
 		}
+		cpuprof := fs.String("cpuprofile", "", "write CPU profile")
 		fs.Parse(os.Args[3:])
+		if *cpuprof != "" {
+			f, _ := os.Create(*cpuprof)
+			pprof.StartCPUProfile(f)
+			defer pprof.StopCPUProfile()
+		}
 		seed, _ := strconv.Atoi(envOr("VERIF_SEED", "0"))
-		os.Exit(cmdRun(os.Args[2], runOpts{tier: *tier, solver: *solver, workers: *workers, only: *only, noReplay: *noReplay,
-			maxPaths: *maxPaths, progress: *progress, minutes: *minutes, seed: seed}))
+		code := cmdRun(os.Args[2], runOpts{tier: *tier, solver: *solver, workers: *workers, only: *only, noReplay: *noReplay,
+			maxPaths: *maxPaths, progress: *progress, minutes: *minutes, seed: seed})
+		pprof.StopCPUProfile()
+		os.Exit(code)
 	case "replay":
 		if len(os.Args) < 3 {
 			os.Exit(2)
